@@ -454,6 +454,13 @@ def nat_sweep(seed, count):
             if not (-1e-9 <= m <= 1 + 1e-3):
                 msgs.append(f"{name}: M-index {m:.4f} outside [0, 1]")
             msgs.extend(_hist_vs_reference(O, s, name))
+            if it % 3 == 1:
+                # what symmetry_operations returns is the caller's: emptying it must not change later results
+                ops_ = g.symmetry_operations(s)
+                if isinstance(ops_, list):
+                    del ops_[:]
+                if abs(float(D.misorientation_index(O, s)) - m) > 0:
+                    msgs.append(f"{name}: the M-index changes after the caller modified the list returned by symmetry_operations (shared state)")
             if it == 0 and (seed % 4 == 0 or count > 3):
                 msgs.extend(_large_aggregate(rng, name if name in ("triclinic", "monoclinic") else "triclinic"))
             perm = rng.permutation(n)
